@@ -19,6 +19,10 @@ for name in sorted(os.listdir(os.path.join(VERIF, "seeded"))):
     pid = name.split("-")[0]
     if only and pid not in only and name not in only:
         continue
+    meta = os.path.join(d, "meta.json")
+    if os.path.exists(meta) and json.load(open(meta)).get("superseded"):
+        print(f"SUPERSEDED {name}", flush=True)
+        continue
     subprocess.run(["git", "-C", REPO, "checkout", "-q", "--", "."], check=False)
     if subprocess.run(["git", "-C", REPO, "apply", patch]).returncode != 0:
         print(f"APPLY-FAILED {name}", flush=True)
